@@ -599,16 +599,17 @@ impl<'a> Compiler<'a> {
                 self.current_index.push_subindex(0);
                 self.process_card(condition)?;
                 self.current_index.pop_subindex();
-                self.current_index.push_subindex(1);
-                // if false jump over the body block
+                // if false jump over the body block. The jumps are the loop's own instructions:
+                // only the body is compiled under the body's index
                 self.encode_if_then(Instruction::GotoIfFalse, |c| {
                     // if true execute body and jump to block_begin
+                    c.current_index.push_subindex(1);
                     c.process_card(body)?;
+                    c.current_index.pop_subindex();
                     c.push_instruction(Instruction::Goto);
                     write_to_vec(block_begin, &mut c.program.bytecode);
                     Ok(())
                 })?;
-                self.current_index.pop_subindex();
             }
             CardBody::Repeat(rep) => {
                 // compile_subexpr numbers the count as child 0 itself
@@ -717,16 +718,16 @@ impl<'a> Compiler<'a> {
                 self.compile_subexpr(slice::from_ref(condition))?;
 
                 let mut idx = 0;
-                self.current_index.push_subindex(1);
                 self.encode_if_then(Instruction::GotoIfFalse, |c| {
+                    c.current_index.push_subindex(1);
                     c.process_card(then_card)?;
+                    c.current_index.pop_subindex();
                     // jump over the `else` branch
                     c.push_instruction(Instruction::Goto);
                     idx = c.program.bytecode.len();
                     write_to_vec(0xEEFi32, &mut c.program.bytecode);
                     Ok(())
                 })?;
-                self.current_index.pop_subindex();
                 self.current_index.push_subindex(2);
                 self.process_card(else_card)?;
                 self.current_index.pop_subindex();
@@ -738,16 +739,22 @@ impl<'a> Compiler<'a> {
             CardBody::IfFalse(jmp) => {
                 let [cond, body] = &**jmp;
                 self.compile_subexpr(slice::from_ref(cond))?;
-                self.current_index.push_subindex(1);
-                self.encode_if_then(Instruction::GotoIfTrue, |c| c.process_card(body))?;
-                self.current_index.pop_subindex();
+                self.encode_if_then(Instruction::GotoIfTrue, |c| {
+                    c.current_index.push_subindex(1);
+                    c.process_card(body)?;
+                    c.current_index.pop_subindex();
+                    Ok(())
+                })?;
             }
             CardBody::IfTrue(jmp) => {
                 let [cond, body] = &**jmp;
                 self.compile_subexpr(slice::from_ref(cond))?;
-                self.current_index.push_subindex(1);
-                self.encode_if_then(Instruction::GotoIfFalse, |c| c.process_card(body))?;
-                self.current_index.pop_subindex();
+                self.encode_if_then(Instruction::GotoIfFalse, |c| {
+                    c.current_index.push_subindex(1);
+                    c.process_card(body)?;
+                    c.current_index.pop_subindex();
+                    Ok(())
+                })?;
             }
             CardBody::Call(jmp) => {
                 self.compile_subexpr(&jmp.args.0)?;
